@@ -11,5 +11,5 @@ CONSTANTS
   Script <- Script_Links
   CopyKeep = {}
 VIEW View
-ACTION_CONSTRAINT Export
+ACTION_CONSTRAINT ExportSim
 CHECK_DEADLOCK FALSE
